@@ -726,6 +726,76 @@ def read_fault_checks(ctx, i):
         g.set_faults([])
 
 
+# ---- repair on a grid that accepts nothing ------------------------------------------------------------------------------
+def closed_grid_repair(ctx, i):
+    """Exactly k, k+1 (sometimes k-1 or N-1) good shares are left and EVERY server has turned read-only or full, so the
+    repairer (happy=0) can place nothing.  The post-repair results must say what an independent check of the resulting
+    grid says, which is what is on disk: recoverable exactly when at least k distinct good shares, healthy exactly when N."""
+    from core import grid as G
+    from allmydata.monitor import Monitor
+    r = ctx.rng("closed", i)
+    k = r.choice([1, 2, 3, 4])
+    n = r.choice([x for x in [k + 1, k + 2, 2 * k + 1, 10] if x <= 10])
+    mss = r.choice([24, 64, 128])
+    size = r.choice([56, 100, 200])
+    data = bytes(r.getrandbits(8) for _ in range(size))
+    nservers = r.choice([n, n, n + 1, max(1, n // 2)])
+    seed = r.getrandbits(30)
+    left = [k, k, k, k + 1, k + 1, max(0, k - 1), n - 1][i % 7]
+    left = min(left, n)
+    verify = r.random() < 0.5
+    case = {"i": i, "closed": True, "k": k, "n": n, "size": size, "servers": nservers, "seed": seed, "shares_left": left, "verify": verify}
+    with G.Grid(num_servers=nservers, k=k, n=n, happy=1, max_segment_size=mss, seed=seed, timeout=180) as g:
+        cap = g.run(g.upload(data, convergence=b"c45c"))
+        shares = g.find_shares(cap)
+        numbers = sorted(set(s.shnum for s in shares))
+        keep_numbers = set(r.sample(numbers, min(left, len(numbers))))
+        for s in shares:
+            if s.shnum not in keep_numbers:
+                g.delete_share(s)
+        closed = {}
+        for srv in range(nservers):
+            closed[srv] = r.choice(["readonly", "full"])
+            if closed[srv] == "readonly":
+                g.set_readonly(srv, True)
+            else:
+                g.set_full(srv, True)
+        before = disk_state(g, cap)
+        out = g.run(lambda: C.fresh_node(g, cap).check_and_repair(Monitor(), verify=verify), outcome=True, timeout=120)
+        after = disk_state(g, cap)
+        new = sorted(key for key in after if key not in before)
+        for key, raw in before.items():
+            if key not in after or C.split_container(after[key])[1] != C.split_container(raw)[1]:
+                ctx.oracle_fail("repair-altered-existing-good-share", "share %d on server %d changed during check_and_repair on a closed grid" % (key[1], key[0]), case=case)
+        distinct = len(set(sh for (_s, sh) in after))
+        outcome = out.error or out.status
+        if out.status == "ok":
+            crr = out.value
+            outcome = "healthy-no-repair" if not crr.get_repair_attempted() else ("repaired" if crr.get_repair_successful() else "repair-unsuccessful")
+            post_per, post = results_of(g, crr.get_post_repair_results())
+            ind = g.run(lambda: C.fresh_node(g, cap).check(Monitor(), verify=verify), outcome=True, timeout=90)
+            if ind.status == "ok":
+                _p, ind_agg = results_of(g, ind.value)
+                if (post[0], post[1], post[2]) != (ind_agg[0], ind_agg[1], ind_agg[2]):
+                    ctx.oracle_fail("post-repair-results-differ-from-independent-check",
+                                    "after check_and_repair(verify=%s) with %d distinct good shares stored (k=%d, N=%d, every server closed, %d shares placed): post-repair results say "
+                                    "healthy=%s recoverable=%s good=%d, an independent check of the same grid says healthy=%s recoverable=%s good=%d" % (
+                                        verify, distinct, k, n, len(new), post[0], post[1], post[2], ind_agg[0], ind_agg[1], ind_agg[2]),
+                                    case=case, expected=list(ind_agg[:3]), observed=list(post[:3]))
+            if post[1] != (distinct >= k) or post[0] != (distinct == n):
+                ctx.oracle_fail("post-repair-health-rule", "%d distinct good shares are stored after check_and_repair (k=%d, N=%d) but the post-repair results say healthy=%s recoverable=%s" % (
+                    distinct, k, n, post[0], post[1]), case=case, expected=[distinct == n, distinct >= k], observed=list(post[:2]))
+            prr = crr.get_post_repair_results()
+            if (prr.get_version_counter_recoverable(), prr.get_version_counter_unrecoverable()) != ((1, 0) if distinct >= k else (0, 1)):
+                ctx.oracle_fail("post-repair-health-rule", "%d distinct good shares (k=%d): post-repair results count %d recoverable / %d unrecoverable versions" % (
+                    distinct, k, prr.get_version_counter_recoverable(), prr.get_version_counter_unrecoverable()), case=case)
+        if distinct >= k:
+            status, err, chunks = C.read_through(g, C.fresh_node(g, cap), 0, None, timeout=90)
+            if status != "ok" or b"".join(chunks) != data:
+                ctx.oracle_fail("cannot-read-recoverable-file", "%d distinct good shares stored (k=%d) but download gives %s" % (distinct, k, (err or status) if status != "ok" else "wrong bytes"), case=case)
+        ctx.case((k, n, nservers, left, verify, tuple(sorted(closed.items()))), kind="closed-grid:k%+d-left:%s" % (left - k, outcome))
+
+
 # ---- files whose UEB disagrees with the cap ------------------------------------------------------------------
 UEB_EDITS = [
     ("size+1", lambda d: d.update(size=d["size"] + 1), False),
@@ -829,6 +899,8 @@ def run(ctx):
         lease_checks(ctx, i)
     for i in range(ctx.n(20, 200)):
         read_fault_checks(ctx, i)
+    for i in range(ctx.n(14, 140)):
+        closed_grid_repair(ctx, i)
     evaluate(ctx, jobs)
 
 
@@ -838,6 +910,9 @@ def replay(ctx, record):
     if "i" not in case:
         return {"note": "record names no case index"}
     jobs = []
+    if case.get("closed"):
+        closed_grid_repair(ctx, case["i"])
+        return {"i": case["i"]}
     if case.get("readfault"):
         read_fault_checks(ctx, case["i"])
         return {"i": case["i"]}
